@@ -391,3 +391,52 @@ def r_commutator_messages(ctx: Ctx, rule: str) -> None:
                     run.ok(rule, inst)
     if n == 0:
         raise AnalysisError("no UnaryCommutator construction with messages found")
+
+
+def r_no_swallowed_exceptions(ctx: Ctx, rule: str) -> None:
+    """The documented errors (ColumnError, EngineError, ...) are the package's answers; a handler that catches them (or
+    everything) and carries on turns a refusal into a wrong result."""
+    run, m = ctx.run, ctx.m
+    run.rule(
+        rule,
+        "no exception is swallowed inside the package: every `except` clause either names a narrow non-package exception "
+        "for an import/attribute fallback or re-raises; no contextlib.suppress",
+        expected_min=1,
+    )
+    package_errors = {"ColumnError", "EngineError", "RelationalAlgebraError", "ValueError", "TypeError", "KeyError", "AssertionError", "Exception", "BaseException", "NotImplementedError", "RuntimeError", "AttributeError", "LookupError", "IndexError"}
+    n = 0
+    bad = 0
+    for mod in m.modules.values():
+        if mod.rel == "tests.py":
+            continue
+        for node in ast.walk(mod.tree):
+            if isinstance(node, ast.Try):
+                for h in node.handlers:
+                    n += 1
+                    names = set()
+                    if h.type is None:
+                        names.add("BaseException")
+                    else:
+                        for e in ast.walk(h.type):
+                            if isinstance(e, ast.Name):
+                                names.add(e.id)
+                            elif isinstance(e, ast.Attribute):
+                                names.add(e.attr)
+                    reraises = any(isinstance(x, ast.Raise) for b in h.body for x in ast.walk(b))
+                    if (names & package_errors) and not reraises:
+                        bad += 1
+                        run.fail(
+                            rule,
+                            f"{mod.rel}:except:{'/'.join(sorted(names))}:{bad}",
+                            f"`except {src(h.type) if h.type is not None else ''}` at line {h.lineno} catches {sorted(names & package_errors)} and does not re-raise: "
+                            "a refusal (or an internal error) is turned into a normal result",
+                            file=mod.path,
+                            line=h.lineno,
+                            func="<except>",
+                        )
+            elif isinstance(node, ast.Call) and (dotted(node.func) or "").split(".")[-1] == "suppress":
+                n += 1
+                bad += 1
+                run.fail(rule, f"{mod.rel}:suppress:{bad}", f"`{src(node)[:60]}` silences exceptions inside the package", file=mod.path, line=node.lineno, func="<suppress>")
+    if bad == 0:
+        run.ok(rule, "package:no-swallowing-handler", {"handlers_seen": n})
